@@ -4,5 +4,5 @@ From FB Require Import Sem.Base Model.Fb GenEq.Tac.
 From FB Require Gen.FbGen.
 Open Scope Z_scope.
 
-Lemma gen_eq : forall m, FbGen.empty m = Fb.empty m.
+Lemma gen_eq : forall SIZE chk m, FbGen.empty SIZE chk m = Fb.empty m.
 Proof. gen_eq. Qed.
